@@ -44,7 +44,8 @@ SOLID_FIELDS = [
     ("axi/quad", "quad", "renum", "axi"), ("axi/quad8", "quad8", "distorted", "axi"),
     ("2d/quad", "quad", "distorted", "2d"), ("3d/lagrange2", "lagrange3o2", "curved", "3d"), ("ps/lagrange3", "lagrange2o3", "curved", "ps"),
 ]
-MATERIALS = ["NeoHooke", "NeoHooke-mu", "NeoHookeCompressible", "LELS", "OgdenRoxburgh-virgin", "OgdenRoxburgh-softened", "tt-mooney", "tt-visco", "Composite", "plastic-elastic", "plastic-plastic"]
+MATERIALS = ["NeoHooke", "NeoHooke-mu", "NeoHookeCompressible", "LELS", "OgdenRoxburgh-virgin", "OgdenRoxburgh-softened", "tt-mooney", "tt-visco", "Composite", "plastic-elastic", "plastic-plastic",
+             "user-nonconservative", "ad-nonconservative", "NeoHooke-bulk", "Volumetric"]
 MIXED_FIELDS = [("mixed/hexahedron", "hexahedron", "renum", "3d"), ("mixed/ps-quad", "quad", "renum", "ps"), ("mixed/axi-quad", "quad", "renum", "axi"), ("mixed/quad9", "quad9", "ref", "ps"), ("mixed/tetra10", "tetra10", "ref", "3d")]
 
 
@@ -52,7 +53,7 @@ def plan(tier, seed):
     cases = []
     quick = tier == "quick"
     for (lab, mk, mem, fk) in SOLID_FIELDS:
-        mats = MATERIALS if (not quick or lab in ("3d/hexahedron", "ps/quad", "axi/quad")) else ["NeoHooke", "tt-mooney"]
+        mats = MATERIALS if (not quick or lab in ("3d/hexahedron", "ps/quad", "axi/quad")) else ["NeoHooke", "tt-mooney", "user-nonconservative"]
         if fk == "2d":
             mats = ["LinearElasticPlaneStress"]
         for mat in mats:
@@ -146,6 +147,10 @@ def material(name, region):
         um = fem.NeoHooke(mu=1.3, bulk=4.1)
     elif name == "NeoHooke-mu":
         um = fem.NeoHooke(mu=1.3)
+    elif name == "NeoHooke-bulk":
+        um = fem.NeoHooke(bulk=4.1)
+    elif name == "Volumetric":
+        um = C.Volumetric(bulk=4.1)
     elif name == "NeoHookeCompressible":
         um = fem.NeoHookeCompressible(mu=1.3, lmbda=2.2)
     elif name == "LELS":
@@ -163,6 +168,35 @@ def material(name, region):
         um = fem.NeoHooke(mu=1.1) & C.Volumetric(bulk=3.0)
     elif name.startswith("plastic"):
         um = fem.LinearElasticPlasticIsotropicHardening(E=2.0, nu=0.3, sy=1e3 if name.endswith("elastic") else 1e-3, K=0.4)
+    elif name == "user-nonconservative":
+        # user functions, stress law without a potential: P = mu F + a F.F + b (F:F) F^T  ->  dP/dF has no major symmetry,
+        # so that nothing in the assembly may rely on A_ijkl = A_klij
+        mu, a, b = 1.0, 0.35, 0.2
+        I = np.eye(3)
+
+        def stress(x):
+            F = x[0]
+            FF = np.einsum("ik...,kj...->ij...", F, F)
+            n2 = np.einsum("ij...,ij...->...", F, F)
+            return [mu * F + a * FF + b * n2 * F.transpose(1, 0, 2, 3), x[-1]]
+
+        def elasticity(x):
+            F = x[0]
+            sh = F.shape[2:]
+            A = mu * np.einsum("ik,jl->ijkl", I, I)[..., None, None] * np.ones(sh)
+            A = A + a * (np.einsum("ik,lj...->ijkl...", I, F) + np.einsum("ik...,jl->ijkl...", F, I))
+            n2 = np.einsum("ij...,ij...->...", F, F)
+            A = A + b * (2 * np.einsum("ji...,kl...->ijkl...", F, F) + n2 * np.einsum("il,jk->ijkl", I, I)[..., None, None])
+            return [A]
+
+        um = fem.Material(stress=stress, elasticity=elasticity)
+    elif name == "ad-nonconservative":
+        import tensortrax.math as tm
+
+        def P_of_F(F, mu, a, b):
+            return mu * F + a * (F @ F) + b * tm.trace(F @ tm.transpose(F)) * tm.transpose(F)
+
+        um = fem.MaterialAD(P_of_F, mu=1.0, a=0.35, b=0.2)
     elif name == "LinearElasticPlaneStress":
         um = C.LinearElasticPlaneStress(E=2.0, nu=0.3)
     else:
@@ -281,7 +315,7 @@ def run(case):
         hm = set_state(field, mesh, case["amp"], seed)
         um, sv = material(case["mat"], region)
         body = fem.SolidBody(um, field, statevars=sv)
-        hyper = case["mat"] in ("NeoHooke", "NeoHooke-mu", "NeoHookeCompressible", "LELS", "tt-mooney", "Composite", "LinearElasticPlaneStress")
+        hyper = case["mat"] in ("NeoHooke", "NeoHooke-mu", "NeoHooke-bulk", "Volumetric", "NeoHookeCompressible", "LELS", "tt-mooney", "Composite", "LinearElasticPlaneStress")
         fd_check(c, "K", [body], field, 2e-5 * hm, symmetric=hyper)
         # the assembled matrix must not depend on how often the vector was assembled before (reused result buffers)
         K1 = body.assemble.matrix(field).toarray()
@@ -290,6 +324,10 @@ def run(case):
         K2 = body.assemble.matrix().toarray()
         if np.abs(K1 - K2).max() > 1e-12 * max(np.abs(K1).max(), 1e-12):
             c.bad("buffers", "matrix changes when vector/matrix are re-assembled at the same state (stale result buffer)", float(np.abs(K1 - K2).max()), 0)
+        r1 = fem.SolidBody(um, field, statevars=sv).assemble.vector(field).toarray()
+        r2 = body.assemble.vector(field).toarray()
+        if np.abs(r1 - r2).max() > 1e-12 * max(np.abs(r1).max(), 1e-12):
+            c.bad("buffers-vector", "vector of a body with a call history differs from the vector of a fresh body at the same state (stale result buffer)", float(np.abs(r1 - r2).max()), 0)
         return c.result(dict(case=case["key"], unknowns=int(values_of(field).size)))
     if kind == "mixed":
         mesh, region, field = make_field(case["mesh"], case["member"], case["fk"], seed, mixed=True)
